@@ -16,7 +16,7 @@ RULE = ("one case = one model (three state types, num_visible 1..5, all biases n
         "every built-in observable (SigmaX/Y/Z with absolute False/True, NeighbourInteraction for c=1..n and both boundary "
         "conditions) is evaluated on the full basis (exact weighting), on a shuffled batch with repeats and on a single "
         "row. Non-trivial: all parameters non-zero; distinct by sha256 of parameters.")
-REQUIRED = ["expectations_compared", "absolute_checks", "batch_consistency_checks", "protected_write_ops_inspected",
+REQUIRED = ["states_used_before_with_other_parameters", "expectations_compared", "absolute_checks", "batch_consistency_checks", "protected_write_ops_inspected",
             "mixed_state_expectations", "pure_state_expectations"]
 ANCHOR_FILES = ["qucumber/observables/pauli.py", "qucumber/observables/interactions.py", "qucumber/observables/utils.py"]
 REACH = [
@@ -51,7 +51,16 @@ def run_case(case, ctx):
     na = int(rng.integers(1, 4))
     scales = gen.SCALES_MODERATE if case["rep"] % 3 else [0.5, 1.0, 3.0, 10.0]
     am, ph = gen.draw_model(rng, kind, nv, nh, na, scales=scales)
-    st = gen.make_state(kind, am, ph)
+    if case["rep"] % 2:
+        def warm(s_):
+            sp_ = s_.generate_hilbert_space()
+            for o_ in (SigmaX(), SigmaY(), SigmaZ(), NeighbourInteraction(c=1)):
+                o_.apply(s_, sp_)
+        st, how = gen.make_state_used(rng, kind, am, ph, warm)
+        ctx.count("states_used_before_with_other_parameters")
+        ctx.seen("parameter_change_idioms", how)
+    else:
+        st = gen.make_state(kind, am, ph)
     V = R.space(nv)
     N = len(V)
     kd, dense = R.state_dense(kind, am, ph, nv)
